@@ -26,7 +26,7 @@ Variable o : oracles.
 (** what the code keeps of the abstract state at the switch: nothing of the greeting or a transaction; but an
     authentication obtained earlier on the connection stays valid (xmitstat.authname is not touched by tls_init) *)
 (* the ESMTP flag is not touched either; it is of no use until a new EHLO: the command state is the initial one *)
-Definition a_reset (a : astate) : astate := {| a_phase := PInit; a_txn := None; a_stored := 0; a_auth := a_auth a; a_esmtp := a_esmtp a |}.
+Definition a_reset (a : astate) : astate := {| a_phase := PInit; a_txn := None; a_stored := 0; a_auth := a_auth a; a_esmtp := a_esmtp a; a_cert := a_cert a |}.
 
 Fixpoint ttrace_run (evs : list tevent) (a : astate) : option astate :=
   match evs with
